@@ -133,6 +133,7 @@ from jax.lax import scan_p, scan
 
 import beartype.typing as btyping
 
+from genjax import _compat
 from genjax.pjax import (
     PPPrimitive,
     Environment,
@@ -214,7 +215,7 @@ class State:
 
         for eqn in jaxpr.eqns:
             invals = safe_map(env.read, eqn.invars)
-            subfuns, params = eqn.primitive.get_bind_params(eqn.params)
+            subfuns, params = _compat.get_bind_params(eqn.primitive, eqn.params)
             args = subfuns + invals
             primitive, inner_params = PPPrimitive.unwrap(eqn.primitive)
 
@@ -282,8 +283,7 @@ class State:
                 body_jaxpr = params["jaxpr"]
                 length = params["length"]
                 reverse = params["reverse"]
-                num_consts = params["num_consts"]
-                num_carry = params["num_carry"]
+                num_consts, num_carry = _compat.scan_num_consts_carry(params)
                 const_vals, carry_vals, xs_vals = split_list(
                     invals, [num_consts, num_carry]
                 )
